@@ -55,6 +55,7 @@ type c11TxObs struct {
 	bodyCalls  int
 	bodyKind   string // "nil" "error" "panic" ("" = body never finished/ran)
 	bodyErr    error
+	bodyPanic  error // the error value the body panicked with, if it was one
 	res        error
 	panicked   bool
 	pv         any
@@ -235,6 +236,7 @@ func c11RunTxWith(c c11TxCase, rec *c11Rec, call func(context.Context, func(cont
 					o.bodyKind, o.bodyErr = "error", e
 					return e
 				case "panic":
+					o.bodyPanic = e
 					panic(e)
 				}
 			}
@@ -247,7 +249,8 @@ func c11RunTxWith(c c11TxCase, rec *c11Rec, call func(context.Context, func(cont
 			o.bodyKind, o.bodyErr = "error", c11ErrKindVals[c.ErrKind]
 			return o.bodyErr
 		case "panic-error":
-			panic(c11ErrKindVals[c.ErrKind])
+			o.bodyPanic = c11ErrKindVals[c.ErrKind]
+			panic(o.bodyPanic)
 		case "panic-string":
 			panic("c11: boom")
 		default:
@@ -344,6 +347,12 @@ func c11JudgeTx(m *vk.M, desc string, o c11TxObs) (class string, violated bool) 
 		} else if e.Conn != cid {
 			return v("C11:tx:statement-outside-transaction", "event %s ran on connection %d, the transaction is on connection %d", e.Kind, e.Conn, cid)
 		}
+	}
+	// sql.ErrTxDone in the result, although neither the body nor a done context produced it, means
+	// the library called Commit / Rollback on a transaction it had already ended: the transaction
+	// was terminated twice at the *sql.Tx level (database/sql forwards only the first to the driver)
+	if !o.ctxDone && !o.panicked && errors.Is(o.res, sql.ErrTxDone) && !errors.Is(o.bodyErr, sql.ErrTxDone) && !errors.Is(o.bodyPanic, sql.ErrTxDone) {
+		return v("C11:tx:"+o.bodyKind+"-body:terminated-twice", "the result wraps sql.ErrTxDone (%d Commit / %d Rollback reached the driver): a second Commit/Rollback was issued on the finished transaction", commits, rollbacks)
 	}
 	switch o.bodyKind {
 	case "nil":
